@@ -134,9 +134,13 @@ Report(why, props, e) ==
 \* (two abnormal results of the same kind are equal whatever their message)
 SameObs(a, b) == a.k = b.k /\ (a.k \in {"panic", "abort", "ub", "invalid"} \/ a = b)
 RefOK(e)    == e.ref = 0 \/ (e.ref >= gst.start /\ e.ref < l /\ Rec[e.ref].ev = e.ev /\ Rec[e.ref].sig = e.sig)
+\* A different answer of from_str / FromStr for the same string in another member of the group also
+\* violates C04 itself ("if several variants share a name the same one is returned in every mode").
 MetaViol(e) == IF meta.gprop # "" /\ e.ref # 0
                   /\ ~SameObs(Rec[e.ref].res, e.res)
-               THEN {meta.gprop} ELSE {}
+               THEN {meta.gprop} \cup (IF e.ev = "call" /\ meta.gprop = "C09" THEN
+                                          (IF e.fn \in {"from_str", "from_str_t"} THEN {"C04"} ELSE {}) ELSE {})
+               ELSE {}
 
 Judge(e, absOK, prop) ==
   LET ub == IF IsUB(e.res) THEN {"C02"} ELSE {}
